@@ -142,7 +142,7 @@ def run(sid, tier="quick"):
     sid = os.path.basename(d.rstrip("/"))
     meta = json.load(open(os.path.join(d, "meta.json")))
     props = meta.get("check_properties") or [meta["property"]]
-    name = "run-" + sid
+    name = "run-%s-%d" % (sid, os.getpid())
     wt = worktree(name)
     out_all = {}
     try:
@@ -161,6 +161,11 @@ def run(sid, tier="quick"):
                             "wall_s": round(time.time() - t0, 1), "tier": tier}
     finally:
         drop(name)
+        # the scratch build directories of this run (check: build/<pid>-<sha1(tree path)[:10]>)
+        import hashlib
+        h = hashlib.sha1(wt.encode()).hexdigest()[:10]
+        for pid in props:
+            shutil.rmtree(os.path.join(ROOT, "build", "%s-%s" % (pid, h)), ignore_errors=True)
     json.dump(out_all, open(os.path.join(d, "detection.json"), "w"), indent=1)
     return out_all
 
